@@ -107,7 +107,10 @@ impl PortRig {
         while let Ok(m) = self.rx.try_recv() {
             self.msgs += 1;
             let f: Vec<&str> = m.split(':').collect();
-            if f.len() != 4 || f[0] != "ioport" {
+            if f[0] != "ioport" {
+                continue; // message kinds other than ioport: are not C16's
+            }
+            if f.len() != 4 {
                 return Some(("message-format".into(), format!("unexpected message '{}' after {}", m, op.text())));
             }
             let (Ok(p), Ok(v), Ok(ts)) = (u8::from_str_radix(f[1], 16), u8::from_str_radix(f[2], 16), f[3].parse::<u64>()) else {
